@@ -31,6 +31,8 @@ func runC16(c *Ctx) {
 	// LMTP: Close waits for one reply per recipient it recorded; the server gives every accepted occurrence the
 	// delivery's outcome (shared with C13)
 	ruleFillValue(c)
+	R.Rule("R-recipients-as-accepted", "E1/E2", "the client records a recipient exactly when the server accepted its RCPT: Close waits for one LMTP reply per recorded recipient and returns their verdicts", 2)
+	ruleRcptsRecorded(c)
 
 	R.Rule("R-data-writer", "E4 value flow", "Data/LMTPData return a dataCloser around c.text.DotWriter() obtained on the nil-error edge of the DATA command expecting 354", 4)
 	for _, fn := range []string{"(*Client).Data", "(*Client).LMTPData"} {
